@@ -142,7 +142,7 @@ theorem stable_applyOp {size acc : Nat} {d : Value} {op : Op} {d' : Value} {acc'
        (op.kind = .move ∧ ∃ f d1, parsePointer op.frm = some f ∧ f ≠ [] ∧ p ≠ [] ∧
           Stable o.neg d d1 f ∧ Stable o.neg d1 d' p)) := by
   cases hp : parsePointer op.path with
-  | none => rw [applyOp_badPointer hp] at h; cases h
+  | none => exact absurd h (applyOp_badPointer_ne_ok hp _)
   | some path =>
   refine ⟨path, rfl, ?_⟩
   cases hk : op.kind with
